@@ -227,6 +227,33 @@ func genAnyField(r *vh.Rand, name string) uField {
 	return u
 }
 
+// growTree turns one or two fields of an inline object / oneof into deeper structure: a nested inline
+// schema (recursively, up to depth levels) or, inside an object, an array / a map of a simple type
+func growTree(r *vh.Rand, u *uField, depth int) {
+	n := r.Range(1, 2)
+	for k := 0; k < n && k < len(u.InFields); k++ {
+		i := r.Intn(len(u.InFields))
+		f := &u.InFields[i]
+		if f.Inline != "" || f.Container != "" {
+			continue
+		}
+		if u.Inline == "object" && r.Chance(35) {
+			f.Container = vh.Pick(r, []string{"array", "map"})
+			f.Optional = false
+			continue
+		}
+		child := genInline(r, f.Name)
+		if u.Inline == "oneof" {
+			// the members of a proto oneof are singular
+			child.Container, child.Required, child.Optional = "", false, false
+		}
+		if child.Inline != "enum" && len(child.InFields) > 0 && depth > 1 && r.Chance(50) {
+			growTree(r, &child, depth-1)
+		}
+		*f = child
+	}
+}
+
 // genInline: a field whose type is an anonymous schema defined in place (nested in the message)
 func genInline(r *vh.Rand, name string) uField {
 	u := uField{Name: name, Required: r.Chance(20), Bang: r.Bool(), PType: 11}
@@ -256,6 +283,11 @@ func genInline(r *vh.Rand, name string) uField {
 	default:
 		u.Inline, u.J5Kind, u.PType = "enum", "enum", 14
 		u.InOptions = vh.Pick(r, [][]string{{"A", "B"}, {"LOW", "MID", "HIGH"}, {"UNSPECIFIED", "ON"}, {"X"}})
+	}
+	// inline schemas inside inline schemas, arrays and maps inside inline objects (the tree form of the
+	// model: KInlineTree; outside the formal quantifier, tied to the compiler like everything else)
+	if u.Inline != "enum" && len(u.InFields) > 0 && r.Chance(30) {
+		growTree(r, &u, 2)
 	}
 	// `array:object { .. }` / `map:object { .. }` (also oneof, enum): the anonymous schema is the item /
 	// value type of a repeated field
@@ -774,6 +806,35 @@ var negClasses = []negClass{
 			uField{Name: "kind", Inline: "enum", J5Kind: "enum", PType: 14, InOptions: []string{"A"}},
 			uField{Name: "kindA", Inline: "enum", J5Kind: "enum", PType: 14, InOptions: []string{"B"}},
 			uField{Name: "kind_", Inline: "enum", J5Kind: "enum", PType: 14, InOptions: []string{"A"}})
+	}},
+	// the same faults two levels down (tree-form inline schemas)
+	{"tree-dup-field", 6, func(r *vh.Rand, d *entityDecl) {
+		inner := uField{Name: "inner", Inline: "object", J5Kind: "object", PType: 11,
+			InFields: []uField{plainString("twin"), plainString(vh.Pick(r, []string{"twin", "Twin"}))}}
+		d.Data = append(d.Data, uField{Name: "treeTwins", Inline: "object", J5Kind: "object", PType: 11, InFields: []uField{plainString("fine"), inner}})
+	}},
+	{"tree-optional-required", 4, func(r *vh.Rand, d *entityDecl) {
+		in := plainString("bothWays")
+		in.Required, in.Optional = true, true
+		inner := uField{Name: "inner", Inline: "object", J5Kind: "object", PType: 11, Container: vh.Pick(r, []string{"", "array", "map"}), InFields: []uField{in}}
+		d.Data = append(d.Data, uField{Name: "treeBoth", Inline: "object", J5Kind: "object", PType: 11, InFields: []uField{inner}})
+	}},
+	{"tree-oneof-option-type", 6, func(r *vh.Rand, d *entityDecl) {
+		inner := uField{Name: "pick", Inline: "oneof", J5Kind: "oneof", PType: 11, InFields: []uField{plainString("a"), plainString("type")}}
+		d.Data = append(d.Data, uField{Name: "treeChoice", Inline: "object", J5Kind: "object", PType: 11, InFields: []uField{inner}})
+	}},
+	{"tree-entry-clash", 6, func(r *vh.Rand, d *entityDecl) {
+		// inside a nested object: the entry message of the map `tags` and the inline type of `tagsEntry`
+		m := plainString("tags")
+		m.Container = "map"
+		clash := uField{Name: "tagsEntry", Inline: "object", J5Kind: "object", PType: 11, InFields: []uField{plainString("a")}}
+		inner := uField{Name: "inner", Inline: "object", J5Kind: "object", PType: 11, InFields: []uField{m, clash}}
+		d.Data = append(d.Data, uField{Name: "treeEntry", Inline: "object", J5Kind: "object", PType: 11, InFields: []uField{inner}})
+	}},
+	{"tree-dangling-reference", 3, func(r *vh.Rand, d *entityDecl) {
+		ref := uField{Name: "dangling", Obj: "NoSuchType", PType: 11, J5Kind: "object"}
+		inner := uField{Name: "inner", Inline: "object", J5Kind: "object", PType: 11, InFields: []uField{ref}}
+		d.Data = append(d.Data, uField{Name: "treeRef", Inline: "object", J5Kind: "object", PType: 11, InFields: []uField{inner}})
 	}},
 	{"dup-event-field", 6, func(r *vh.Rand, d *entityDecl) {
 		d.Events = append(d.Events, eEvent{Name: "WithTwins", Fields: []uField{plainString("twin"), plainString("twin")}})
